@@ -150,6 +150,12 @@ func TestC19_IdentitiesAndPointer(t *testing.T) {
 				}
 				prefix := crypto.Keccak256([]byte(fmt.Sprintf("prefix-%d-%d", cfg, txCounter)))
 				tx := queueTx{Prefix: prefix, Sender: rapid.IntRange(1, 4).Draw(rt, fmt.Sprintf("snd%d", txCounter)), Gas: gas}
+				if q := model.Queue[cfg]; len(q) > 0 && rapid.IntRange(0, 5).Draw(rt, fmt.Sprintf("resubmit%d", txCounter)) == 0 {
+					// a user submits the same (prefix, sender) again: the same identity twice in the queue
+					o := q[rapid.IntRange(0, len(q)-1).Draw(rt, fmt.Sprintf("resubmitOf%d", txCounter))]
+					tx.Prefix, tx.Sender = o.Prefix, o.Sender
+					prefix = o.Prefix
+				}
 				idx := int64(len(model.Queue[cfg]))
 				_, err := gdb.InsertTransactionSubmittedEvent(ctx, gnosisdb.InsertTransactionSubmittedEventParams{
 					Index: idx, BlockNumber: 5, BlockHash: []byte{1}, TxIndex: idx, LogIndex: 0, Eon: cfg,
@@ -299,7 +305,11 @@ func TestC19_IdentitiesAndPointer(t *testing.T) {
 				} else {
 					k := rapid.IntRange(0, 4).Draw(rt, "kk")
 					for i := 0; i < k; i++ {
-						ids = append(ids, append(crypto.Keccak256([]byte{byte(i)}), uni.Addrs[1].Bytes()...))
+						pre := crypto.Keccak256([]byte{byte(i)})
+						if rapid.IntRange(0, 3).Draw(rt, fmt.Sprintf("zeroPrefix%d", i)) == 0 {
+							pre = make([]byte, 32) // prefixes are chosen by users: all zero is one of them
+						}
+						ids = append(ids, append(pre, uni.Addrs[1+i%3].Bytes()...))
 					}
 				}
 				msg := &p2pmsg.DecryptionKeys{InstanceId: simInstanceID, Eon: uint64(cfg)}
